@@ -7,6 +7,7 @@ CONSTANTS
   MaxTog = 3
   MaxActive = 1
   Export = TRUE
+  MergeFull = FALSE
 VIEW View
 INVARIANT InvOpCorrect
 INVARIANT InvProportional
